@@ -7,7 +7,7 @@ NClass == {"1", "2", "3", "7", "8", "9", "31", "33", "40", "255", "257", "1023",
 Declared == {"one", "tenth", "exact", "tenfold"}
 Orders == {"asc", "desc", "shuffle"}
 KeyClass == {"8", "0-and-1", "32", "64", "mixed", "65535", "lengths"}
-Special == {"none", "one-bucket", "duplicate", "key-65536", "vsize-0", "vsize-253", "vsize-255", "vsize-256", "declared-0", "long-value"}
+Special == {"none", "one-bucket", "duplicate", "key-65536", "vsize-0", "vsize-253", "vsize-255", "vsize-256", "declared-0", "long-value", "short-values"}
 VARIABLES fmt, vs, nc, decl, ord, kc, sp
 vars == <<fmt, vs, nc, decl, ord, kc, sp>>
 Big(c) == c \in {"9999", "10001", "20001", "60000"}
@@ -16,7 +16,7 @@ Init == /\ fmt \in Formats /\ vs \in VSizes /\ nc \in NClass /\ decl \in Declare
         \* keep the product meaningful: specials and large populations are crossed with one setting of the other dimensions
         /\ (sp # "none" => ord = "shuffle" /\ decl = "exact" /\ kc = "32" /\ nc \in {"3", "40"} /\ vs \in {8, 36})
         \* the legacy builders have a fixed value type and the property's declared counts start at 1
-        /\ (sp \in {"vsize-0", "vsize-253", "vsize-255", "vsize-256", "long-value", "declared-0"} => fmt = "sized")
+        /\ (sp \in {"vsize-0", "vsize-253", "vsize-255", "vsize-256", "long-value", "declared-0", "short-values"} => fmt = "sized")
         /\ (Big(nc) => ord = "shuffle" /\ kc \in {"8", "32"} /\ vs \in {8, 36} /\ decl \in {"exact", "tenth"})
         /\ (kc = "65535" => nc \in {"2", "3"})
         /\ (kc = "lengths" => nc \in {"31", "40"} /\ ord = "shuffle" /\ decl = "exact")
